@@ -10,7 +10,8 @@ namespace Driver.Opt
   `op`:
    * "parse"    -> parse twice with the same parser object (state threaded): {"wf","res","res2","defaults","defaults2"}
                    ("pinned": true uses the pre-fix list `append`)
-   * "pipeline" -> overwrite_defaults(ini) ; parse ; update_defaults(dodo): {"wf","res"}
+   * "pipeline" -> overwrite_defaults(ini) ; parse ; update_defaults(dodo): {"wf","res","exit"}
+                   ("exit": what DoitMain.run returns / does: 0, 3, or 1 = uncaught exception with "pinned": true)
    * "spec"     -> `asgs` (structured assignments), `sep` (bool), `pos`: the argv `render` builds, whether the
                    hypotheses of the round-trip theorem hold, and the value the *specification* gives every option:
                    {"argv","hyp_ok","wf","expect": {"err":true} | {"vals":[[name,VAL]],"pos":[...]}}
@@ -134,7 +135,8 @@ def handle (j : Json) : Json :=
       Json.mkObj [("wf", wf), ("res", resJson names r1.2), ("res2", resJson names r2.2),
                   ("defaults", defaultsJson r1.1), ("defaults2", defaultsJson r2.1)]
     | "pipeline" =>
-      Json.mkObj [("wf", wf), ("res", resJson names (pipeline spec ini dodo env argv))]
+      Json.mkObj [("wf", wf), ("res", resJson names (pipeline spec ini dodo env argv)),
+                  ("exit", toJson (runMain (jbool j "pinned") spec ini dodo env argv).kind)]
     | "spec" =>
       match (jarr j "asgs").mapM asgOf with
       | none => Driver.err "bad asg"
